@@ -444,6 +444,12 @@ func NewWorld(t testingT, plan *Plan) *World {
 
 	w.ctx, w.Cancel = context.WithCancel(context.Background())
 	args := append([]string{"-forward-url", "http://" + backendAddr}, plan.Args...)
+	// a quarter of the runs (a function of the plan) ask for verbose logs: no property depends on
+	// that flag, so nothing a check observes may change with it (wave 12: C01-s, C15-r)
+	if plan.Tail%4 == 2 && !slices.Contains(args, "-verbose") {
+		args = append(args, "-verbose")
+		w.Probes["verbose_logs"]++
+	}
 	// every option has an environment variable of the same meaning (flags.go / env.go): in a
 	// third of the runs (a function of the plan) the configuration reaches the proxy that way
 	var envSet []string
